@@ -28,6 +28,11 @@ def main():
         subprocess.run(["git", "-C", "/repo", "reset", "-q", "--hard", "HEAD"])
         print("patch does not apply"); sys.exit(2)
     res = {}
+    # evidence files are rewritten by every check run; a run on a MUTATED tree must never replace the evidence of
+    # the unchanged tree, so they are saved here and put back afterwards
+    import shutil, tempfile
+    evsave = tempfile.mkdtemp(prefix="evsave-")
+    shutil.copytree("/verif/evidence", evsave + "/evidence")
     try:
         env = dict(os.environ)
         if seed:
@@ -44,6 +49,9 @@ def main():
             sys.stdout.flush()
     finally:
         subprocess.run(["git", "-C", "/repo", "reset", "-q", "--hard", "HEAD"])
+        shutil.rmtree("/verif/evidence", ignore_errors=True)
+        shutil.copytree(evsave + "/evidence", "/verif/evidence")
+        shutil.rmtree(evsave, ignore_errors=True)
     print(json.dumps(res))
 
 main()
